@@ -57,6 +57,12 @@ Step ==
             IF Rec.ntop > 1 /\ Rec.variant = 1
             THEN Stat("dpdformula-judged") /\ Clause("aligned-amplitude-is-the-dpd-rotation-of-the-topology-amplitudes", Rec.nan = 0 /\ Rec.reldiff_q <= Tol, <<Rec.alignment, Rec.reldiff_q, Rec.nan>>)
             ELSE Stat("dpdformula-not-judged")
+       [] Rec.kind = "wignerangles" ->
+            \* axis-angle alignment: R_z(alpha) R_y(beta) R_z(gamma) = (L_n ... L_1) L_direct^-1 (pure boosts along the decay chain
+            \* against the direct boost): the Wigner angles are the Euler angles of the Wigner rotation.  Judged like "dpdformula".
+            IF Rec.ntop > 1 /\ Rec.variant = 1
+            THEN Stat("wignerangles-judged") /\ Clause("wigner-angles-are-the-euler-angles-of-the-wigner-rotation", Rec.diff_q <= Tol, <<Rec.suffix, Rec.diff_q>>)
+            ELSE Stat("wignerangles-not-judged")
        [] Rec.kind = "relabel" ->
             \* relabel_edge_ids (every id shifted by one) commutes with formulate(): same intensity on the same events
             Stat("relabel") /\ Clause("relabelled-reaction-has-the-same-intensity", Rec.nan = 0 /\ Rec.reldiff_q <= Tol, <<Rec.reldiff_q, Rec.nan>>)
